@@ -330,6 +330,33 @@ var flagBits = []iso8601.ValidFlags{iso8601.AllowSpaceSeparator, iso8601.AllowMi
 
 var grammars [32]*regexp.Regexp
 
+// ---- histories: Parse and Valid are functions of their argument, whatever was parsed before
+
+var historyInputs = []string{
+	"1969-12-31T23:59:59Z", "1969-12-31T00:00:00.5Z", "0001-01-01T00:00:00Z", "1900-02-28T12:00:00Z", "1970-01-01T00:00:00Z",
+	"2021-03-25T21:36:12Z", "2021-03-25T21:36:12.123456789Z", "2021-03-25T21:36:12+02:00", "1969-12-31T23:59:59-07:00", "9999-12-31T23:59:59Z",
+	"2021-02-30T00:00:00Z", "1969-12-31T24:00:00Z", "1969-12-31", "",
+}
+
+func histories(c *explore.Ctx) {
+	a := c.Choose(len(historyInputs))
+	b := c.Choose(len(historyInputs))
+	n := 0
+	for d := 0; d < len(historyInputs); d++ {
+		for _, i := range []int{a, b, a, d, a, a, d, d, b} {
+			compareParse(c, "history", historyInputs[i])
+			checkValid(c, historyInputs[i])
+			n++
+		}
+	}
+	c.Inner(int64(n))
+	c.NontrivialStr(historyInputs[a], historyInputs[b])
+	c.Outcome("history")
+	if c.WantSample() {
+		c.Case(map[string]any{"first": historyInputs[a], "second": historyInputs[b], "calls": n})
+	}
+}
+
 func init() {
 	for m := 0; m < 32; m++ {
 		has := func(i int) bool { return m&(1<<i) != 0 }
@@ -468,6 +495,7 @@ func Spec() *explore.Spec {
 	return &explore.Spec{
 		ID: "C18",
 		Families: []*explore.Family{
+			{Name: "histories", ShardDepth: 1, Body: histories, Doc: "every sequence a, b, a, d, a, a, d, d, b over 14 timestamps (before and after 1970, the same date at different times, offsets, invalid dates and times, a bare date, the empty string): each Parse and each Valid (32 flag subsets) answers as it does for that argument alone, whatever was parsed before"},
 			{Name: "dates", Body: dates, Doc: "every year 0000-9999 x month 00-13 x day 00-32 x 2 times of day"},
 			{Name: "times", ShardDepth: 2, Body: times, Doc: "hh 00-29 x mm 00-69 x ss 00-69 on 3 dates, with and without fraction"},
 			{Name: "fractions", ShardDepth: 2, Body: fractions, Doc: "fraction length 0-11 x digit patterns x zone suffix x {'.', ','}"},
